@@ -61,6 +61,9 @@ def make_case(rng, i):
     upper = (i % 4 == 3)
     if upper:
         names = ["H", "H2", "H+", "E-", "HE", "HE+", "C", "O", "CO", "MG", "MG+", "SIO", "HCL", "#CO", "#SIO"]
+        # ions of one-letter elements next to neutrals of two-letter ones (S+ / SI, HS+ / HSI, C+ / CL): identifier = renamed symbols
+        # + charge suffix, the pieces must not be re-read across their boundary
+        names += rng.sample(["S", "S+", "SI", "SI+", "HS+", "HSI", "C+", "CL", "CL+", "N+", "H2S+", "H2SI", "#SI", "#S", "S++", "SI++"], rng.randint(4, 9))
         feats = {"upper_replace", "ice"}
     reacs = []
     for j in range(rng.randint(4, 10)):
